@@ -182,8 +182,12 @@ def cmd_check(a):
             extra_cov[k_] = v_
 
     # ---------------- verdict + evidence
-    n_ob = len(all_obs)
-    n_ok = sum(1 for o in all_obs if o["status"] == "proved")
+    # obligations matched by a recorded known finding are reported separately (KNOWN-FINDING lines, evidence key
+    # known_findings) and are not part of the proof-level claim
+    known_ids = {what for _kf, _w, what in known_hits}
+    claimed = [o for o in all_obs if o["id"] not in known_ids]
+    n_ob = len(claimed)
+    n_ok = sum(1 for o in claimed if o["status"] == "proved")
     if n_ob == 0:
         errors.append("vacuous: zero obligations generated for %s" % pid)
     for o in all_obs[:: max(1, len(all_obs) // 6)][:6]:
@@ -212,6 +216,7 @@ def cmd_check(a):
             "bounded_count": len(bounded),
             "undecided": undecided[:200],
             "known_findings": sorted({"%s @ %s" % (kf.get("id"), w) for kf, w, _ in known_hits}),
+            "known_finding_obligations": len(all_obs) - len(claimed),
             "not_translated": notes[:200],
             "samples": samples,
             "extraction_drops": "source locations other than line numbers, failure() file/line strings, visibility attributes, Error copy-construction wrappers around return",
